@@ -245,7 +245,7 @@ prop(
     "C04",
     level="other",
     design_ref="DESIGN.md section 3, C04",
-    groups=[(_PIPE, r"^(\(\*eventPool\)\.wakeupWaiters|\(\*lowMemoryEventPool\)\.(wakeupWaiters|back|eventsAvailable)|\(\*stream\)\.(put|tryDetach|tryUnblock|blockGet|attach)|\(\*streamer\)\.(makeCharged|makeBlocked|resetBlocked|isBlocked|joinStream)|\(\*streamer\)\.start|\(\*processor\)\.(process|dischargeStream|tryMarkBusy|tryResetBusy|start|AddActionPlugin)|newProcessor|\(\*Pipeline\)\.(Start|newProc|initProcs|expandProcs)|\(\*Batch\)\.updateStatus|\(\*Batcher\)\.(heartbeat|work|Start))$")],
+    groups=[(_PIPE, r"^(\(\*eventPool\)\.wakeupWaiters|\(\*lowMemoryEventPool\)\.(wakeupWaiters|back|eventsAvailable)|\(\*stream\)\.(put|tryDetach|tryUnblock|blockGet|attach)|\(\*streamer\)\.(makeCharged|makeBlocked|resetBlocked|isBlocked|joinStream)|\(\*streamer\)\.(start|heartbeat)|\(\*processor\)\.(process|dischargeStream|tryMarkBusy|tryResetBusy|start|AddActionPlugin)|newProcessor|\(\*Pipeline\)\.(Start|newProc|initProcs|expandProcs)|\(\*Batch\)\.updateStatus|\(\*Batcher\)\.(heartbeat|work|Start))$")],
     canaries=[("./pipeline", "replay/C04/zz_replay_c04_test.go", "TestVerifReplayC04"),
               ("./pipeline", "replay/C04/zz_stale_heartbeat_snapshot_test.go", "TestVerifStaleHeartbeatSnapshot")],
     claim=(
@@ -312,8 +312,14 @@ prop(
     level="other",
     design_ref="DESIGN.md section 3, C16",
     groups=[(["./plugin/action/throttle"], r"^(rebuildBuckets|\(\*simpleBuckets\)\.(rebuild\$1|add|get|reset)|\(\*inMemoryLimiter\)\.(isAllowed|rebuildBuckets)|\(\*limitersMap\)\.getOrAdd|\(bucketsMeta\)\.timeToBucketID)$"),
+            (["./plugin/action/throttle"], r"^(\(\*distributedBuckets\)\.(add|get|reset|isEmpty|getDistrCount|rebuild|rebuild\$1)|\(\*simpleBuckets\)\.rebuild|\(bucketsMeta\)\.actualizeIndex|\(\*inMemoryLimiter\)\.(getDistrData|updateDistribution)|\(\*limitDistributions\)\.(getLimit|size|isEnabled|copy)|\(\*limitDistributionCfg\)\.isEmpty|parseLimitDistribution|\(LimitDistributionConfig\)\.toInternal|\(\*Plugin\)\.isAllowed|\(\*limitersMap\)\.(newLimiter|maintenance)|newBuckets|newBucketsMeta|newSimpleBuckets|newDistributedBucket|newDistributedBuckets|newInMemoryLimiter)$"),
             (["./plugin/action/throttle", "./pipeline"], r"^\(\*rule\)\.isMatch$")],
     claim=(
+        "Rule selection and distribution (added): Plugin.isAllowed tries the rules in configuration order and asks exactly one limiter - that of the first matching rule and of the event's own throttle key - and passes the event when no rule matches; "
+        "getDistrData gives a listed value its own slot and share limit, lets an unlisted value use the default slot while cur+val <= default limit and borrow a listed share only when cur+val <= that share's limit (the one with most room); "
+        "distributedBuckets add/get/reset touch exactly one cell / row, its ring shift permutes rows, keeps surviving contents and zeroes freed rows; the constructors build one counter per share plus the default with the rule's own limit and kind; "
+        "maintenance deletes a limiter only under the lock and only when it was idle for the expiration time; parseLimitDistribution accepts exactly the valid configurations (ratios in [0,1], pairwise sums <= 1, no empty value list) and keeps the value -> share map in range; "
+        "updateDistribution replaces the distribution under the lock and rebuilds the ring exactly when the number of shares changes. "
         "In-memory throttle with simple buckets, for all event times and clock positions (bucket ids are arbitrary integers): rebuildBuckets keeps maxID == minID + count - 1, never moves the window backwards, "
         "resets exactly min(clock advance, count) buckets exactly when the clock moved past the newest bucket, and maps every event time into the retained window (past and future times count against the newest bucket); "
         "the ring shift - through the real append(b[n:], b[:n]...) in both its in-place and reallocating cases - moves bucket i+n to i and zeroes the freed tail, all other counters unchanged; "
